@@ -29,12 +29,12 @@ type Job struct {
 	// Replay, when set, asks for a single execution.
 	Replay *Replay `json:"replay,omitempty"`
 	// BudgetS is the wall-clock budget of this job in seconds (0 = none).
-	BudgetS int `json:"budget_s,omitempty"`
+	BudgetS int  `json:"budget_s,omitempty"`
 	Race    bool `json:"race,omitempty"` // run in the -race binary
 	// CrashIsViolation: the server process must keep running; a worker that
 	// dies (fatal error, out of memory) is a finding, not an engine error.
 	CrashIsViolation bool `json:"crash_is_violation,omitempty"`
-	Verbose bool `json:"verbose,omitempty"`
+	Verbose          bool `json:"verbose,omitempty"`
 }
 
 // Replay identifies one execution: the choices of the explorer and/or the
@@ -81,6 +81,7 @@ type Result struct {
 	Outcomes    int            `json:"distinct_outcomes"`
 	MaxDepth    int            `json:"max_depth,omitempty"`
 	Bound       int            `json:"deviation_bound,omitempty"`
+	BoundDone   *int           `json:"deviation_bound_done,omitempty"` // set by jobs whose search iterates the bound; nil = Bound if exhaustive
 	Exhaustive  bool           `json:"exhaustive"`
 	CapHit      string         `json:"cap_hit,omitempty"`
 	Violations  []Violation    `json:"violations,omitempty"`
@@ -264,7 +265,16 @@ func RunProperty(root, prop, tier string, seed int64, exePlain, exeRace string) 
 	var samples []any
 	var engineErrs []string
 	perJob := []map[string]any{}
-	maxDepth, bound := 0, 0
+	maxDepth, bound, boundDone := 0, 0, -1
+	doneOf := func(r *Result) int {
+		switch {
+		case r.BoundDone != nil:
+			return *r.BoundDone
+		case r.Exhaustive:
+			return r.Bound
+		}
+		return -1 // capped and not iterated: nothing is known to be complete
+	}
 	for i, r := range results {
 		states += r.States
 		trans += r.Transitions
@@ -274,8 +284,13 @@ func RunProperty(root, prop, tier string, seed int64, exePlain, exeRace string) 
 		if r.MaxDepth > maxDepth {
 			maxDepth = r.MaxDepth
 		}
-		if r.Bound > bound {
-			bound = r.Bound
+		if r.Bound > 0 {
+			if r.Bound > bound {
+				bound = r.Bound
+			}
+			if d := doneOf(r); boundDone == -1 || d < boundDone {
+				boundDone = d
+			}
 		}
 		if !r.Exhaustive {
 			exhaustive = false
@@ -300,7 +315,8 @@ func RunProperty(root, prop, tier string, seed int64, exePlain, exeRace string) 
 		}
 		pj := map[string]any{"job": r.Job, "states": r.States, "transitions": r.Transitions, "executions": r.Executions, "distinct_outcomes": r.Outcomes, "exhaustive": r.Exhaustive, "wall_s": round2(r.WallS)}
 		if r.Bound > 0 {
-			pj["deviation_bound_completed"] = r.Bound
+			pj["deviation_bound"] = r.Bound
+			pj["deviation_bound_completed"] = doneOf(r)
 		}
 		if r.MaxDepth > 0 {
 			pj["max_depth"] = r.MaxDepth
@@ -344,7 +360,8 @@ func RunProperty(root, prop, tier string, seed int64, exePlain, exeRace string) 
 		cov["max_depth"] = maxDepth
 	}
 	if bound > 0 {
-		cov["deviation_bound_completed"] = bound
+		cov["deviation_bound"] = bound               // largest bound any job was asked to explore
+		cov["deviation_bound_completed"] = boundDone // smallest bound completed by every bounded job (per job: table)
 	}
 	if len(engineErrs) > 0 {
 		cov["engine_errors"] = engineErrs
